@@ -31,7 +31,7 @@ CMP = ("x", "fun", "jac", "nfev", "njev", "nit", "message", "sk", "yk")
 
 def floors(tier):
     return {"identity_pairs_compared": 60, "switch_runs": 250, "post_switch_states_checked": 800, "switches_dropping_pairs": 40,
-            "switches_newest_pair_rejected": 5, "restart_equivalence_checked": 250, "initial_call_rewrites_on_restart": 100, "__nontrivial__": 40}
+            "switches_newest_pair_rejected": 5, "restart_equivalence_checked": 250, "initial_call_rewrites_on_restart": 100, "switch_runs_with_new_objective_undefined_at_an_old_iterate": 40, "__nontrivial__": 40}
 
 
 def cases(tier, seed):
@@ -53,7 +53,8 @@ def cases(tier, seed):
                "switch_at": int(rng.integers(0, 7)), "variant": gen.pick(rng, ["rescale", "reg", "indefinite", "indefinite", "indefinite"]),
                "vseed": int(rng.integers(0, 2**31 - 1)), "strength": float(rng.uniform(0.3, 3.0)),
                "eps_SY": float(gen.pick(rng, [2.2e-16, 2.2e-16, 1e-3, 1e-2, 0.1])),
-               "rewrite": gen.pick(rng, ["new_deque", "new_deque", "same_deque", "same_arrays"])}
+               "rewrite": gen.pick(rng, ["new_deque", "new_deque", "same_deque", "same_arrays"]),
+               "undefined_at": int(rng.integers(0, 8)) if i % 6 == 5 else None}
     nr = 200 if tier == "quick" else 8000
     for i in range(nr):
         ps = gen.rand_spec(rng, ("qp", "qp_quartic"), nmax=8, nmin=2, boxes=("none", "mixed", "boxed", "lower"),
@@ -87,6 +88,15 @@ def rewritten_history(spec, X, G, gB):
     """How the user's update function hands the rewritten gradients back: a new deque (default), the same deque with its
     entries replaced, or the same deque and the same arrays overwritten in place."""
     mode = spec.get("rewrite", "new_deque")
+    if spec.get("undefined_at") is not None and len(X) >= 2:
+        # the new objective is not defined (its gradient is nan) at one of the OLD stored iterates: that point cannot take part in any
+        # retained pair
+        bad = int(spec["undefined_at"]) % (len(X) - 1)
+        inner = gB
+
+        def gB(p, inner=inner, pt=np.array(X[bad], copy=True)):  # noqa: F811
+            return np.full(p.shape, np.nan) if np.array_equal(p, pt) else inner(p)
+
     if mode == "new_deque":
         return deque(gB(np.array(p, copy=True)) for p in X)
     for i, p in enumerate(X):
@@ -216,6 +226,8 @@ def run_switch(spec, out):
     name = f"switch {P0.spec['family']} n={P0.n} maxcor={spec['maxcor']} eps_SY={eps_sy:g} {desc} at call {spec['switch_at']}"
     tags = dict(kind="switch", variant=spec["variant"])
     out.count("switch_runs")
+    if spec.get("undefined_at") is not None:
+        out.count("switch_runs_with_new_objective_undefined_at_an_old_iterate")
     if tr.exc is not None:
         out.violate("switch_run_raised", f"{name}: {tr.exc!r}", exc=type(tr.exc).__name__, **tags)
         return
@@ -248,6 +260,10 @@ def run_switch(spec, out):
         # position of the state's x among the visited iterates
         upto = (idx_state + 2) if i != "result" else len(X)
         Xs, Gs = X[:upto], GB[:upto]
+        if m > 0 and not (np.all(np.isfinite(sk)) and np.all(np.isfinite(yk))):
+            out.violate("retained_pair_without_curvature", f"{where}: a retained pair has non-finite entries (the new objective is undefined at one "
+                        f"of the old stored iterates: no pair through that point satisfies the curvature condition)", **tags)
+            return
         if m > 0:
             curv = np.einsum("ij,ij->i", sk, yk)
             yy = np.einsum("ij,ij->i", yk, yk)
